@@ -8,7 +8,7 @@ from fractions import Fraction
 from ..gen.ledger import Opts, gen_ledger
 from ..model import hmrc
 from ..probe import probe
-from ..util import rng_for, sha, iso, ZERO, TOL_10DP, TOL_FINE
+from ..util import cap_viols, rng_for, sha, iso, ZERO, TOL_10DP, TOL_FINE
 from . import ledger_core as lc
 
 PROP = "C01"
@@ -175,7 +175,7 @@ def run_cases(cases):
                 (dd["date"], dd["ticker"], [(m["rule"], m["quantity"], m["acquisition_date"]) for m in dd["matches"]])
                 for y in o["ok"]["report"]["tax_years"] for dd in y["disposals"]]})
     return {"evaluations": len(cases), "nontrivial_hashes": hashes, "counters": cnt,
-            "violations": viols[:20], "samples": samples,
+            "violations": cap_viols(viols), "samples": samples,
             "sets": {k: set(v) for k, v in sets.items()}}
 
 
